@@ -446,8 +446,7 @@ pub fn run_c14_load(trace: &Trace) -> Outcome {
                 });
                 list.push((r.x, r.y, r.w, r.h, r.hash));
             }
-            // the loader turns the images into layers from the newest to the oldest
-            list.reverse();
+            // image layers, bottom to top, in arrival order: what arrived later is drawn later
             Ok(list)
         };
         let in_order: Vec<i64> = (0..k as i64).collect();
